@@ -498,6 +498,7 @@ fn freerun(args: &Args, out: &str) -> i32 {
                         let a = rtr_query(rtr_port, None, Duration::from_secs(5));
                         if a.kind == "cache-response" { let _ = rtx.send(("rtr".into(), a.serial, rtr_dataset(&a.items).0)); }
                     }
+                    std::thread::sleep(Duration::from_millis(1));
                 }
             }));
         }
